@@ -46,6 +46,19 @@ PROPS = {
         "design_ref": "DESIGN.md section 4, C10",
         "assumptions": ["input bytes 0..255", "a substitution of the first start delimiter by another valid delimiter is outside the single-byte clause (DESIGN 4.0)"],
     },
+    "C19": {
+        "claimed": False,
+        "coq": "Properties/C19.v",
+        "domains": ["gsd"],
+        "nontrivial": ["interp:tree"],
+        "rule": "TODO",
+        "trusted_base": [],
+        "technique": "TODO",
+        "level_text": "TODO",
+        "level_note": "TODO",
+        "design_ref": "DESIGN.md section 4, C19",
+        "assumptions": [],
+    },
 }
 
 NOT_CLAIMED = {}
